@@ -123,9 +123,14 @@ func (cb *cbox) route(kind string, key types.NamespacedName, old, new client.Obj
 		return []boxEnq{{Rec: "svc", Req: ctrl.Request{NamespacedName: key}}}
 	case "IPAddressPool":
 		if old != nil && new != nil && old.GetGeneration() == new.GetGeneration() {
-			return nil // filterPoolStatusEvent: GenerationChangedPredicate
+			// filterPoolStatusEvent (GenerationChangedPredicate): a status-only change goes to the
+			// PoolStatusReconciler, not to the PoolReconciler
+			return []boxEnq{{Rec: "poolstatus", Req: ctrl.Request{NamespacedName: key}}}
 		}
-		return []boxEnq{{Rec: "pool", Req: ctrl.Request{NamespacedName: key}}}
+		if old != nil && new != nil {
+			return []boxEnq{{Rec: "pool", Req: ctrl.Request{NamespacedName: key}}}
+		}
+		return []boxEnq{{Rec: "pool", Req: ctrl.Request{NamespacedName: key}}, {Rec: "poolstatus", Req: ctrl.Request{NamespacedName: key}}}
 	case "Community":
 		return []boxEnq{{Rec: "pool", Req: ctrl.Request{NamespacedName: key}}}
 	case "Namespace":
@@ -151,7 +156,10 @@ func (cb *cbox) drain(k *boxKernel) {
 }
 
 func (cb *cbox) boot(k *boxKernel) {
-	cb.ctl = &controller{ips: allocator.New(func(string) {})}
+	cb.ctl = &controller{ips: allocator.New(func(name string) {
+		// poolStatusChan -> source.Channel -> PoolStatusReconciler queue
+		k.Enqueue("poolstatus", ctrl.Request{NamespacedName: types.NamespacedName{Namespace: "metallb-system", Name: name}})
+	})}
 	cb.ctl.client = &cboxSvcClient{cb: cb}
 	cb.lis = &k8s.Listener{ServiceChanged: cb.ctl.SetBalancer, PoolChanged: cb.ctl.SetPools}
 	cb.reload = make(chan event.GenericEvent, 4096)
@@ -197,8 +205,14 @@ func (cb *cbox) boot(k *boxKernel) {
 			return res
 		},
 	}
+	statusRec := &controllers.PoolStatusReconciler{
+		Client:          k.ClientFor("poolstatus"),
+		Logger:          logger,
+		CountersFetcher: cb.ctl.ips.CountersForPool,
+	}
 	k.AddReconciler("svc", cb.svcRec.Reconcile)
 	k.AddReconciler("pool", poolRec.Reconcile)
+	k.AddReconciler("poolstatus", statusRec.Reconcile)
 }
 
 // ---------------------------------------------------------------- the controller's service client
